@@ -10,12 +10,17 @@
    fingerprint that worked: "Dial starts with the most recently working ClientHelloID" means that the first hello of
    the next Dial has that very fingerprint (same seed), not merely the same recipe.
 
-   The test server accepts the parrots in `accept`; randomized hellos according to `rmode`:
-   "refuse" none, "any" all, "pin" only the concrete fingerprint of the randomized hello that succeeded first. *)
+   The test server accepts the parrots in `accept`, STALLS the ones in `stall` (it takes the TCP connection and the
+   ClientHello and never answers: the attempt ends when Roller.TlsHandshakeTimeout expires) and refuses the others at
+   once; randomized hellos according to `rmode`: "refuse" none, "stall" none (stalled), "any" all, "pin" only the
+   concrete fingerprint of the randomized hello that succeeded first.  For the loop a stalled attempt is a failed
+   attempt like any other: the NEXT ID gets its own full timeout (u_roller.go:93 sets the deadline per attempt); how
+   long a call may take is judged on the recorded durations by Roller_Trace. *)
 EXTENDS Integers, Sequences, FiniteSets, TLC
 
 CONSTANTS IDs,        \* the candidate ClientHelloIDs (names)
           RandIDs,    \* the ones that are randomized recipes (subset of IDs)
+          Stalls,     \* the sets of parrot IDs the environment may choose to stall in a step (subset of SUBSET (IDs \ RandIDs))
           Seeds,      \* seed numbers available for fresh randomized fingerprints (1..n)
           Canon,      \* TRUE: a fresh seed is the smallest unused one (state-space reduction); FALSE: any unused one
           MaxSteps,   \* length of the Dial history
@@ -31,7 +36,7 @@ From(f, x) == f = x \/ (IsRecipe(x) /\ f[1] = x[1] /\ f[2] > 0)
 
 VARIABLES configured,  \* Roller.HelloIDs as a set of entries <<id, 0>> (Dial shuffles its copy, the order is immaterial)
           working,     \* Roller.WorkingHelloID: None or <<id, seed>>
-          accept, rmode, tcpFail, ncall, nsteps,   \* the environment of the current step
+          accept, stall, rmode, tcpFail, ncall, nsteps,   \* the environment of the current step
           pinned,      \* seed of the randomized fingerprint the server has pinned (0: none yet)
           used,        \* seeds drawn so far
           dead,        \* seeds of randomized fingerprints whose handshake cannot succeed whatever the server's policy
@@ -45,7 +50,7 @@ VARIABLES configured,  \* Roller.HelloIDs as a set of entries <<id, 0>> (Dial sh
           w0,          \* history: WorkingHelloID when the current step began
           result       \* [kind : "-" | "tcperr" | "hserr" | "ok", id : ClientHelloID of the returned connection or None]
 
-vars == <<configured, working, accept, rmode, tcpFail, ncall, nsteps, pinned, used, dead, pc, order, idx, rw, cur, tried, w0, result>>
+vars == <<configured, working, accept, stall, rmode, tcpFail, ncall, nsteps, pinned, used, dead, pc, order, idx, rw, cur, tried, w0, result>>
 
 R(kind, id) == [kind |-> kind, id |-> id]
 Perms(S) == {p \in [1..Cardinality(S) -> S] : \A i, j \in 1..Cardinality(S) : i # j => p[i] # p[j]}
@@ -55,11 +60,11 @@ Swap1(s, i) == [s EXCEPT ![i] = s[1], ![1] = s[i]]
 Pos(s, x) == CHOOSE i \in 1..Len(s) : s[i] = x
 Min(S) == CHOOSE x \in S : \A y \in S : x <= y
 Fresh == LET free == Seeds \ used IN IF Canon /\ free # {} THEN {Min(free)} ELSE free
-RModes == IF RandIDs = {} THEN {"refuse"} ELSE {"refuse", "any", "pin"}
+RModes == IF RandIDs = {} THEN {"refuse"} ELSE {"refuse", "stall", "any", "pin"}
 
 InitWith(conf, w) ==
   /\ configured = conf /\ working = w /\ w0 = w
-  /\ accept = {} /\ rmode = "refuse" /\ tcpFail = FALSE /\ ncall = 0 /\ nsteps = 0 /\ pinned = 0 /\ used = {} /\ dead = {}
+  /\ accept = {} /\ stall = {} /\ rmode = "refuse" /\ tcpFail = FALSE /\ ncall = 0 /\ nsteps = 0 /\ pinned = 0 /\ used = {} /\ dead = {}
   /\ pc = [c \in Callers |-> "idle"] /\ order = [c \in Callers |-> << >>] /\ idx = [c \in Callers |-> 1]
   /\ rw = [c \in Callers |-> None] /\ cur = [c \in Callers |-> None]
   /\ tried = [c \in Callers |-> << >>] /\ result = [c \in Callers |-> R("-", None)]
@@ -71,9 +76,9 @@ Init == \E S \in (SUBSET IDs) \ {{}} : \E w \in {E(i) : i \in IDs} \cup {None} :
 AllIdle == \A c \in Callers : pc[c] \in {"idle", "done"}
 
 \* environment: the next step of the history: server setting and how many callers dial concurrently
-BeginStep(acc, rm, tf, n) ==
-  /\ AllIdle /\ nsteps < MaxSteps
-  /\ accept' = acc /\ rmode' = rm /\ tcpFail' = tf /\ ncall' = n /\ nsteps' = nsteps + 1
+BeginStep(acc, stl, rm, tf, n) ==
+  /\ AllIdle /\ nsteps < MaxSteps /\ acc \cap stl = {}
+  /\ accept' = acc /\ stall' = stl /\ rmode' = rm /\ tcpFail' = tf /\ ncall' = n /\ nsteps' = nsteps + 1
   /\ pc' = [c \in Callers |-> IF c <= n THEN "shuffle" ELSE "idle"]
   /\ order' = [c \in Callers |-> << >>] /\ idx' = [c \in Callers |-> 1] /\ rw' = [c \in Callers |-> None]
   /\ cur' = [c \in Callers |-> None]
@@ -86,7 +91,7 @@ Shuffle(c) ==
   /\ pc[c] = "shuffle"
   /\ \E p \in Perms(configured) : order' = [order EXCEPT ![c] = p]
   /\ pc' = [pc EXCEPT ![c] = "read"]
-  /\ UNCHANGED <<configured, working, accept, rmode, tcpFail, ncall, nsteps, pinned, used, dead, idx, rw, cur, tried, result, w0>>
+  /\ UNCHANGED <<configured, working, accept, stall, rmode, tcpFail, ncall, nsteps, pinned, used, dead, idx, rw, cur, tried, result, w0>>
 
 \* HelloIDMu.Lock(); workingHelloId := c.WorkingHelloID; Unlock(); push it first / prepend it   (u_roller.go:64-81)
 \* `ID == *workingHelloId` compares the whole struct: a seeded working ID is not "found" among unseeded entries
@@ -98,7 +103,7 @@ ReadWorking(c) ==
         ELSE IF working \in Range(@) THEN Swap1(@, Pos(@, working))     \* helloIDs[i] = helloIDs[0]; helloIDs[0] = working
         ELSE << working >> \o @]                                        \* append([]ClientHelloID{working}, helloIDs...)
   /\ pc' = [pc EXCEPT ![c] = "dial"]
-  /\ UNCHANGED <<configured, working, accept, rmode, tcpFail, ncall, nsteps, pinned, used, dead, idx, cur, tried, result, w0>>
+  /\ UNCHANGED <<configured, working, accept, stall, rmode, tcpFail, ncall, nsteps, pinned, used, dead, idx, cur, tried, result, w0>>
 
 \* for _, helloID := range helloIDs { tcpConn, err = net.DialTimeout(...); if err != nil { return nil, err }   (:85-89)
 \* loop exhausted: return nil, err (the last handshake error)                                                     (:109)
@@ -107,8 +112,9 @@ TcpDial(c) ==
   /\ IF idx[c] > Len(order[c]) THEN result' = [result EXCEPT ![c] = R("hserr", None)] /\ pc' = [pc EXCEPT ![c] = "done"]
      ELSE IF tcpFail THEN result' = [result EXCEPT ![c] = R("tcperr", None)] /\ pc' = [pc EXCEPT ![c] = "done"]
      ELSE pc' = [pc EXCEPT ![c] = "hs"] /\ UNCHANGED result
-  /\ UNCHANGED <<configured, working, accept, rmode, tcpFail, ncall, nsteps, pinned, used, dead, order, idx, rw, cur, tried, w0>>
+  /\ UNCHANGED <<configured, working, accept, stall, rmode, tcpFail, ncall, nsteps, pinned, used, dead, order, idx, rw, cur, tried, w0>>
 
+Stalled(f) == IF IsRandom(f) THEN rmode = "stall" ELSE f[1] \in stall
 ServerAccepts(f) == IF IsRandom(f) THEN rmode = "any" \/ (rmode = "pin" /\ pinned \in {0, f[2]})
                     ELSE f[1] \in accept
 
@@ -127,7 +133,7 @@ Handshake(c) ==
           THEN /\ pc' = [pc EXCEPT ![c] = "record"] /\ UNCHANGED idx
                /\ pinned' = IF IsRandom(f) /\ rmode = "pin" THEN f[2] ELSE pinned      \* the server pins the hello that succeeded first
           ELSE pc' = [pc EXCEPT ![c] = "dial"] /\ idx' = [idx EXCEPT ![c] = @ + 1] /\ UNCHANGED pinned
-  /\ UNCHANGED <<configured, working, accept, rmode, tcpFail, ncall, nsteps, order, rw, result, w0>>
+  /\ UNCHANGED <<configured, working, accept, stall, rmode, tcpFail, ncall, nsteps, order, rw, result, w0>>
 
 \* HelloIDMu.Lock(); c.WorkingHelloID = &client.ClientHelloID; Unlock(); return client, nil                        (:100-104)
 \* what is recorded is the UConn's own ClientHelloID: for a randomized ID that includes the seed that was drawn
@@ -136,10 +142,11 @@ Record(c) ==
   /\ working' = cur[c]
   /\ result' = [result EXCEPT ![c] = R("ok", cur[c])]
   /\ pc' = [pc EXCEPT ![c] = "done"]
-  /\ UNCHANGED <<configured, accept, rmode, tcpFail, ncall, nsteps, pinned, used, dead, order, idx, rw, cur, tried, w0>>
+  /\ UNCHANGED <<configured, accept, stall, rmode, tcpFail, ncall, nsteps, pinned, used, dead, order, idx, rw, cur, tried, w0>>
 
 CallerStep(c) == Shuffle(c) \/ ReadWorking(c) \/ TcpDial(c) \/ Handshake(c) \/ Record(c)
-Next == \/ \E acc \in SUBSET (IDs \ RandIDs) : \E rm \in RModes : \E tf \in BOOLEAN : \E n \in Callers : BeginStep(acc, rm, tf, n)
+Next == \/ \E acc \in SUBSET (IDs \ RandIDs) : \E stl \in Stalls : \E rm \in RModes : \E tf \in BOOLEAN : \E n \in Callers :
+               BeginStep(acc, stl, rm, tf, n)
         \/ \E c \in Callers : CallerStep(c)
 Spec == Init /\ [][Next]_vars /\ \A c \in Callers : WF_vars(CallerStep(c))
 
